@@ -166,11 +166,17 @@ def write_gff(rows, flavor="gff3"):
     return "".join(out)
 
 
-def write_seg(samples, probes=True, floatfmt=fnum):
-    """samples: [(sample id, rows)]; rows carry log2 and (if probes) probes."""
+def write_seg(samples, probes=True, floatfmt=fnum, interleave=False):
+    """samples: [(sample id, rows)]; rows carry log2 and (if probes) probes.  interleave: the samples' rows take
+    turns (row 0 of every sample, then row 1 of every sample, ...) instead of one block per sample."""
     head = ["ID", "chrom", "loc.start", "loc.end"] + (["num.mark"] if probes else []) + ["seg.mean"]
     out = ["\t".join(head) + "\n"]
-    for sid, rows in samples:
+    if interleave:
+        depth = max((len(rows) for _sid, rows in samples), default=0)
+        order = [(sid, [rows[i]]) for i in range(depth) for sid, rows in samples if i < len(rows)]
+    else:
+        order = samples
+    for sid, rows in order:
         for r in rows:
             f = [sid, r["chromosome"], str(r["start"] + 1), str(r["end"])]
             if probes:
